@@ -931,7 +931,8 @@ func (v *Variant) judge(c *Case, obs *Observed) (verdict, diff string) {
 		}
 	}
 	switch {
-	case ok && c.Cand && allMechBad:
+	case ok && c.Cand && allMechBad && !predicted:
+		// every answer the plan model allows violates the definition, yet the real answer conforms
 		return "not_reproduced", ""
 	case ok:
 		return "ok", ""
